@@ -127,8 +127,13 @@ impl SubRule {
                     },
                     MatchElement::Syllable(s, _)  => SegPos::new(s, word.syllables[s].segments.len()-1),
                 };
+                // every pass has to leave less of the word to scan than the one before, or the scan would never end
+                let left_to_scan = word.seg_count_from(cur_index);
                 if !self.match_contexts_and_exceptions(&word, start, end, true)? {
-                    if let Some(ci) = next_index { 
+                    if let Some(mut ci) = next_index { 
+                        while word.in_bounds(ci) && word.seg_count_from(ci) >= left_to_scan {
+                            ci.increment(&word);
+                        }
                         cur_index = ci;
                         continue;
                     }
@@ -138,7 +143,10 @@ impl SubRule {
 
                 word = self.transform(&word, res, &mut next_index)?;
                 
-                if let Some(ci) = next_index { 
+                if let Some(mut ci) = next_index { 
+                    while word.in_bounds(ci) && word.seg_count_from(ci) >= left_to_scan {
+                        ci.increment(&word);
+                    }
                     cur_index = ci;
                 } else {
                     // End of Word
